@@ -46,3 +46,22 @@ std::string addr_to_sym(uintptr_t addr);
 bool section_range(const char *name, uintptr_t *lo, uintptr_t *hi);
 std::vector<std::pair<std::string, uintptr_t>> symbols_in(uintptr_t lo, uintptr_t hi);
 std::vector<std::string> symbols_matching(const char *prefix, const char *suffix);
+
+// AAD length classes shared by the GCM workloads: the AAD hash has its own bulk loops (8 x 16, 16 x 16 and 32 x 16 byte groups), so
+// lengths are drawn around multiples of 16, 128, 256 and 512 bytes as well as from the short range real protocols use
+static inline size_t gcm_aad_len_class(uint64_t x)
+{
+        uint64_t y = x >> 4;
+        switch (x % 16) {
+        case 0: case 1: case 2: return 0;
+        case 3: case 4: case 5: case 6: return (size_t) (y % 40);
+        case 7: case 8: return (size_t) (y % 200);
+        case 9: return (size_t) (16 * (y % 70));
+        case 10: return (size_t) (16 * (y % 70) + 1 + (y >> 7) % 15);
+        case 11: return (size_t) (128 * (1 + y % 16) - 1 + (y >> 4) % 3);
+        case 12: return (size_t) (256 * (1 + y % 8) - 1 + (y >> 3) % 3);
+        case 13: return (size_t) (512 * (1 + y % 4) + (y >> 2) % 257);
+        case 14: return (size_t) (y % 2100);
+        default: return (size_t) (256 * (1 + y % 3));
+        }
+}
